@@ -148,6 +148,19 @@ CLAIMS = {
              "routines not reached by these universes are not compared; needs an AVX2 host",
         engine="lex,str,num,search",
     ),
+    "C05": dict(
+        category="exploration",
+        technique="spec-generated input universes (GenLex: all truncations and minimal rejected strings; GenStr) replayed under three memory "
+                  "placements - exact heap allocation, ending at a PROT_NONE page, followed by an adversarial continuation - with faults "
+                  "attributed per API and per-case digests compared across placements",
+        text="TLA+ has no memory model; the specification supplies the exhaustive set of inputs on which a scanner is tempted to read on "
+             "(every truncation of every document), the continuation alphabet and the placement-independent expected result; the harness "
+             "places each input three ways and requires identical observations and no fault.",
+        design_ref="DESIGN.md section 4 C05, section 5, section 11",
+        note="reads outside the input are visible only through a guard-page fault or a changed result; bounded inputs; two known native "
+             "over-reads (literal near the end, leading zero at the end) matched by concrete predicates",
+        engine="lex,str",
+    ),
 }
 
 NOT_YET = "not yet claimed: check under construction (build phase), see DESIGN.md section 8"
